@@ -3,6 +3,7 @@ import NxModel.Nex.Common
 import NxModel.Nex.Errors
 import NxModel.Nex.DateTime
 import NxModel.Nex.StationURL
+import NxModel.Nex.ObjWalk
 import NxModel.DriverUtil
 /-! line-protocol driver for the NEX value models (C15)
 
@@ -18,6 +19,11 @@ type syntax (prefix tokens): u8 … variant | `list T` | `map K V`
   res <code>  -> isError isSuccess mkError mkSuccess ;  res.name <code> ; res.named s<hex> ; errtab.add <code> s<hex> ; errtab.check
   struct.w T|F <n> (<ver> x<hex>)* ;  struct.r T|F <n> <k1..kn> <hex>
   any.w N|s<hex> x<hex> ; any.r <hex> ; holder.null T|F <hex>
+  seq.w <pid> (| <type> | <value>)*      -> ok <hex> <tell after each write, comma separated | ->     (one StreamOut, several values)
+  seq.r <pid> <hex> (| <type>)*          -> ok <value> ; <value> … | <resthex>                        (one StreamIn, several values)
+  url.walk <url> (| <op>)*               -> ok <obs> ; <obs> … | <final url>  (one StationURL object, see NxModel/Nex/ObjWalk.lean)
+     op:  set <key> <val> | del <key> | scheme s<hex> | copy | reparse | str | get <field> | write
+     obs: done | t<s-hex> | p<val> | b<hex> | err <Name>
 -/
 open Nx Nx.Nex
 
@@ -156,6 +162,58 @@ def strOfName (n : Name) : String := String.ofList (n.map Char.ofNat)
 def splitBar (ts : List String) : List String × List String :=
   (ts.takeWhile (· ≠ "|"), (ts.dropWhile (· ≠ "|")).drop 1)
 
+/-- token groups separated by `|` -/
+def splitBars (ts : List String) : List (List String) :=
+  let rec go : List String → List String → List (List String) → List (List String)
+    | [], cur, acc => (cur.reverse :: acc).reverse
+    | t :: r, cur, acc => if t = "|" then go r [] (cur.reverse :: acc) else go r (t :: cur) acc
+  go ts [] []
+
+def parseSeqItems : List (List String) → Option (List (Ty × Val))
+  | [] => some []
+  | tyT :: valT :: r => do
+    let (ty, []) ← parseTy tyT | none
+    let (v, []) ← parseVal ty valT | none
+    let rest ← parseSeqItems r
+    pure ((ty, v) :: rest)
+  | _ => none
+
+def parseSeqTypes : List (List String) → Option (List Ty)
+  | [] => some []
+  | tyT :: r => do
+    let (ty, []) ← parseTy tyT | none
+    let rest ← parseSeqTypes r
+    pure (ty :: rest)
+
+open StationURL ObjWalk in
+def parseUOp : List String → Option UOp
+  | ["set", k, v] => do
+    let some (some k) := parseStr k | none
+    let v ← parsePVal v
+    pure (.set k.toList v)
+  | ["del", k] => do
+    let some (some k) := parseStr k | none
+    pure (.del k.toList)
+  | ["scheme", k] => do
+    let some (some k) := parseStr k | none
+    pure (.scheme k.toList)
+  | ["copy"] => some .copy
+  | ["reparse"] => some .reparse
+  | ["str"] => some .str
+  | ["get", f] => do
+    let some (some f) := parseStr f | none
+    pure (.get f.toList)
+  | ["write"] => some .write
+  | _ => none
+
+open StationURL ObjWalk in
+def showObs : Obs → String
+  | .done => "done"
+  | .text s => "t" ++ showStr (some (String.ofList s))
+  | .pval v => "p" ++ showPVal v
+  | .bytes b => "b" ++ hexOut b
+  | .err e => "err " ++ e.name
+
 def step (tbl : ErrTable) (line : String) : ErrTable × String :=
   let ts := words line
   match ts with
@@ -175,6 +233,26 @@ def step (tbl : ErrTable) (line : String) : ErrTable × String :=
       | some b => showRes ((rVal pid ty b).map (fun (v, r) => showVal v ++ " | " ++ hexOut r))
       | none => "bad-op")
     | _, _, _ => "bad-op")
+  | "seq.w" :: pid :: rest => (tbl, match pid.toNat?, splitBars rest with
+    | some pid, [] :: groups => (match parseSeqItems groups with
+      | some items => showRes ((ObjWalk.wSeq pid items).map (fun b =>
+          let tells := ObjWalk.wSeqTells pid 0 items
+          hexOut b ++ " " ++ (if tells.isEmpty then "-" else ",".intercalate (tells.map toString))))
+      | none => "bad-op")
+    | _, _ => "bad-op")
+  | "seq.r" :: pid :: rest => (tbl, match pid.toNat?, splitBars rest with
+    | some pid, [h] :: groups => (match fromHex h, parseSeqTypes groups with
+      | some b, some tys => showRes ((ObjWalk.rSeq pid tys b).map (fun (vs, r) =>
+          " ; ".intercalate (vs.map showVal) ++ " | " ++ hexOut r))
+      | _, _ => "bad-op")
+    | _, _ => "bad-op")
+  | "url.walk" :: rest => (tbl, match splitBars rest with
+    | urlT :: groups => (match parseURL urlT, groups.mapM parseUOp with
+      | some (u, []), some ops =>
+        let (obs, fin) := ObjWalk.run u ops
+        "ok " ++ " ; ".intercalate (obs.map showObs) ++ " | " ++ showURL fin
+      | _, _ => "bad-op")
+    | [] => "bad-op")
   | ["dt.fields", v] => (tbl, match v.toNat? with
     | some v => let f := DateTime.fields v; s!"ok {f.year} {f.month} {f.day} {f.hour} {f.minute} {f.second}"
     | none => "bad-op")
